@@ -104,6 +104,12 @@ def run(ck):
                     ck.check(neg_t == sliced(shuffled, pb), "C07.R4", inst + ":negative rows are training rows", ssite, "negative batch is %r; expected the shuffled training rows" % (neg_t,))
                 else:
                     okn = len(ri) == 1 and ri[0].op == "randint" and neg_t == sliced(T.app("index", src, (("adv", T.P(ri[0])),)), nsz)
+                    if not okn and neg_t is not None:
+                        # rows of the right tensor selected by an index expression the analyser cannot bound: undecided, not wrong
+                        at = neg_t.single_atom()
+                        inner = at.args[0].single_atom() if at is not None and isinstance(at, T.App) and at.op == "index" else None
+                        if inner is not None and isinstance(inner, T.App) and inner.op == "index" and inner.args[0] == src and not ri:
+                            okn = None
                     ck.check(okn, "C07.R4", inst + ":negative rows drawn from %s" % ("the all-Z rows" if c["bases"] else "the training rows"), ssite,
                              "negative batch is %r; expected rows of %s selected by random row indices, cut by neg_batch_size" % (neg_t, src))
                     if len(ri) == 1 and ri[0].op == "randint":
